@@ -7,6 +7,7 @@ Encoded from MIR: connection::amqp_url::{open, populate_host_and_port, decode} a
 from iocommon import *
 
 PD = z3.Function('percent_decode', StrSort, StrSort)
+LEN = z3.Function('text_len', StrSort, z3.BitVecSort(64))
 ParsesU16 = z3.Function('parses_u16', StrSort, z3.BoolSort())
 ValU16 = z3.Function('value_u16', StrSort, z3.BitVecSort(16))
 ParsesU64 = z3.Function('parses_u64', StrSort, z3.BoolSort())
@@ -141,9 +142,33 @@ def url_summaries():
     def url_clone(ex, st, fn, argv):
         return [(st, Agg({}, 'UrlCopy', 'url-copy'))]
 
-    @reg(r'^(amqp_url::)?decode::percent_decode$')
-    def pdec(ex, st, fn, argv):
-        return [(st, Str(PD(deref(ex, st, argv[0]).s)))]
+    # the crate's own percent_decode helper is executed from MIR; what it calls in the percent_encoding crate is uninterpreted:
+    # decode_utf8_lossy(percent_decode(text bytes)) = PD(text)
+    @reg(r'^(core|std)::str::<impl str>::as_bytes$')
+    def str_as_bytes(ex, st, fn, argv):
+        return [(st, Agg({0: deref(ex, st, argv[0])}, 'StrBytes'))]
+
+    @reg(r'^percent_encoding::percent_decode$')
+    def pe_decode(ex, st, fn, argv):
+        b = deref(ex, st, argv[0])
+        if not (isinstance(b, Agg) and b.ty == 'StrBytes'):
+            raise Unsupported(f"percent_decode of {b!r}")
+        return [(st, Agg({0: b.fields[0]}, 'PercentDecode'))]
+
+    @reg(r'^percent_encoding::PercentDecode::<.*>::decode_utf8_lossy$')
+    def pe_lossy(ex, st, fn, argv):
+        d = deref(ex, st, argv[0])
+        return [(st, Str(PD(d.fields[0].s)))]
+
+    @reg(r'^(core|std)::str::<impl str>::len$|^String::len$')
+    def str_len(ex, st, fn, argv):
+        return [(st, Int(LEN(deref(ex, st, argv[0]).s), 64, False))]
+
+    @reg(r'^(core|std)::str::<impl str>::is_empty$|^String::is_empty$')
+    def str_is_empty(ex, st, fn, argv):
+        t = deref(ex, st, argv[0]).s
+        st.pc.append((LEN(t) == 0) == (t == L('')))
+        return [(st, Bool(t == L('')))]
 
     @reg(r'^core::str::<impl str>::parse::<(u16|u64)>$')
     def parse_int(ex, st, fn, argv):
@@ -155,13 +180,20 @@ def url_summaries():
             outs.append((s, mk_ok(Int(val(sv), w)) if good else mk_err(Agg({}, 'ParseIntError', 'parse-error'))))
         return outs
 
+    def cow_text(ex, st, v):
+        v = deref(ex, st, v)
+        if isinstance(v, Enum) and isinstance(v.disc, int) and v.ty and 'Cow' in v.ty:   # Cow::Borrowed(s) / Cow::Owned(s): the text is s
+            inner = v.payloads[v.disc].fields[0]
+            v = deref(ex, st, inner)
+        return v
+
     @reg(r'<Cow<.*> as AsRef<str>>::as_ref$|<Cow<.*> as Deref>::deref$|<Cow<.*> as ToString>::to_string$|<Cow<.*> as Into<String>>::into$|<Cow<.*> as Clone>::clone$')
     def cow_id(ex, st, fn, argv):
-        return [(st, deref(ex, st, argv[0]))]
+        return [(st, cow_text(ex, st, argv[0]))]
 
     @reg(r'<Cow<.*> as PartialEq<&str>>::eq$|<Cow<.*> as PartialEq<str>>::eq$')
     def cow_eq(ex, st, fn, argv):
-        a, b = deref(ex, st, argv[0]), deref(ex, st, argv[1])
+        a, b = cow_text(ex, st, argv[0]), cow_text(ex, st, argv[1])
         return [(st, Bool(a.s == b.s))]
 
     @reg(r'ResultExt<.*>>::with_context::<')
@@ -244,8 +276,27 @@ def replay_decode(ctx, prog, u, pc, claim):
             extra.append(z3.Implies(v == L(lit), z3.Not(ParsesU64(v))))
     r, m, _ = ctx.solve(list(pc) + extra + [z3.Not(claim)])
     if r != 'sat':
-        ctx.inconclusive.append('C19 decode counterexample is not expressible with plain URL components: not replayed')
-        return
+        # second attempt: components drawn from a menu of concrete texts, some with escapes, whose decoding and length are known
+        menu = {'': '', 'guest': 'guest', 'ab': 'ab', 'abcd': 'abcd', '%2f': '/', '%41': 'A', 'a%20b': 'a b', 'v%2fh': 'v/h'}
+        ax = []
+        for t_, d_ in menu.items():
+            ax += [PD(L(t_)) == L(d_), LEN(L(t_)) == len(t_)]
+        ax += [PD(L(d_)) == L(d_) for d_ in ('/', 'A', 'a b', 'v/h')]
+        extra2 = [u.has_host, u.host != L(''), u.has_path, u.port_some == z3.BoolVal(False)]
+        for c in [u.username, u.password] + u.segs:
+            extra2.append(z3.Or(*[c == L(t_) for t_ in menu]))
+        extra2 += [u.host == L('localhost')]
+        for (k, v) in u.query:
+            extra2 += [z3.Or(*[k == L(x) for x in ('heartbeat', 'channel_max', 'connection_timeout', 'auth_mechanism')]),
+                       z3.If(k == L('auth_mechanism'), z3.And(v == L('external'), z3.Not(ParsesU16(v)), z3.Not(ParsesU64(v))),
+                             z3.And(v != L('external'), ParsesU16(v), ParsesU64(v), ValU64(v) == z3.ZeroExt(48, ValU16(v)), z3.ULT(ValU16(v), 60000), PD(v) == v))]
+        r, m, _ = ctx.solve(list(pc) + ax + extra2 + [z3.Not(claim)])
+        if r != 'sat':
+            ctx.inconclusive.append('C19 decode counterexample is not expressible with plain URL components or the menu of escaped ones: not replayed')
+            return
+        PDV = dict(menu)
+    else:
+        PDV = None
     from ioreplay import Namer
     nm = Namer(m)
     def txt(e):
@@ -288,9 +339,10 @@ def replay_decode(ctx, prog, u, pc, claim):
                 errs.append('UrlInvalidAuthMechanism')
         else:
             errs.append('UrlUnsupportedParameter')
-    vhost = txt(u.segs[0]) if txt(u.segs[0]) != '' else '/'
+    pd = (lambda t_: PDV.get(t_, t_)) if PDV else (lambda t_: t_)
+    vhost = pd(txt(u.segs[0])) if txt(u.segs[0]) != '' else '/'
     creds = user != '' or pw is not None
-    eu, ep = (user if user else 'guest', pw if pw is not None else 'guest') if creds else ('guest', 'guest')
+    eu, ep = (pd(user) if user else 'guest', pd(pw) if pw is not None else 'guest') if creds else ('guest', 'guest')
     wants = []
     if errs:
         wants = [f"Err({e})" for e in sorted(set(errs))]
